@@ -33,6 +33,15 @@ def load_props():
     for path in sorted(glob.glob(os.path.join(VERIF, "bin", "props.d", "C*.json"))):
         with open(path) as f:
             props[os.path.basename(path)[:-5]] = json.load(f)
+    # proof obligations live apart from the runner configuration
+    for path in sorted(glob.glob(os.path.join(VERIF, "bin", "proofs.d", "C*.json"))):
+        pid = os.path.basename(path)[:-5]
+        with open(path) as f:
+            pr = json.load(f)
+        cfg = props.setdefault(pid, {})
+        for k in ("modules", "obligations", "pending", "trusted_extra", "level", "explanation"):
+            if k in pr:
+                cfg[k] = pr[k]
     return props
 
 
